@@ -12,6 +12,9 @@ Round 3: sticky run settings are stored from the settings dict only after the
 caller's keywords were merged into it; the forced dump at a stop always reaches
 SaveSolver (truth-table feasibility under force=True and a registered file) and
 Step requests it after logging STOP.
+Round 4: __load_state does nothing but the transplant; class-level containers
+mutated through self are state outside the instance; a local standing for a
+stored setting counts as that setting in the sticky-settings rule.
 NOT decided: bit-equality of continued trajectories, RNG state (premise), bytes.
 """
 import ast
